@@ -1102,3 +1102,214 @@ func clampHi(lo, hi rune) rune {
 	}
 	return hi
 }
+
+// ---------- derivations that pass through a given rule (coverage of real-world grammars) ----------
+
+// Steer precomputes what DeriveVia needs: the cheapest derivation cost of every rule and which rules each rule can reach.
+type Steer struct {
+	g     *Grammar
+	cost  map[string]int
+	reach map[string]map[string]bool
+}
+
+func NewSteer(g *Grammar) *Steer {
+	s := &Steer{g: g, cost: map[string]int{}, reach: map[string]map[string]bool{}}
+	const inf = 1 << 20
+	for _, r := range g.Rules {
+		s.cost[r.Name] = inf
+	}
+	for changed := true; changed; {
+		changed = false
+		for _, r := range g.Rules {
+			if c := s.exprCost(r.E); c < s.cost[r.Name] {
+				s.cost[r.Name] = c
+				changed = true
+			}
+		}
+	}
+	for _, r := range g.Rules {
+		m := map[string]bool{}
+		var w func(e *Expr)
+		w = func(e *Expr) {
+			if e.K == KRef {
+				m[e.Name] = true
+			}
+			for _, k := range e.Kids {
+				w(k)
+			}
+		}
+		w(r.E)
+		s.reach[r.Name] = m
+	}
+	for changed := true; changed; {
+		changed = false
+		for _, r := range g.Rules {
+			for x := range s.reach[r.Name] {
+				for y := range s.reach[x] {
+					if !s.reach[r.Name][y] {
+						s.reach[r.Name][y] = true
+						changed = true
+					}
+				}
+			}
+		}
+	}
+	return s
+}
+
+func (s *Steer) exprCost(e *Expr) int {
+	const inf = 1 << 20
+	switch e.K {
+	case KSeq:
+		t := 0
+		for _, k := range e.Kids {
+			t += s.exprCost(k)
+			if t >= inf {
+				return inf
+			}
+		}
+		return t
+	case KAlt:
+		m := inf
+		for _, k := range e.Kids {
+			if c := s.exprCost(k); c < m {
+				m = c
+			}
+		}
+		return m
+	case KQuery, KStar, KAnd, KNot, KAction, KNil, KPred, KState:
+		return 0
+	case KPlus, KCapture:
+		return s.exprCost(e.Kids[0])
+	case KLit:
+		return len(e.Text)
+	case KClass, KDot:
+		return 1
+	case KRef:
+		if c, ok := s.cost[e.Name]; ok {
+			return c
+		}
+		return 0
+	}
+	return 0
+}
+
+func (s *Steer) canReach(e *Expr, target string) bool {
+	if e.K == KRef && (e.Name == target || s.reach[e.Name][target]) {
+		return true
+	}
+	if e.K == KAnd || e.K == KNot {
+		return false // lookahead consumes nothing: steering through it does not put the target into the text
+	}
+	for _, k := range e.Kids {
+		if s.canReach(k, target) {
+			return true
+		}
+	}
+	return false
+}
+
+// DeriveVia derives an input from start whose derivation passes through rule target: choices are steered towards the
+// target until it has been expanded, made at random inside the target, and made as cheaply as possible elsewhere.
+func (s *Steer) DeriveVia(r *rand.Rand, start, target string, alphabet []rune) []rune {
+	var out []rune
+	hit := false
+	budget := 4000
+	var walk func(e *Expr, free int)
+	walk = func(e *Expr, free int) {
+		budget--
+		if budget < 0 {
+			return
+		}
+		switch e.K {
+		case KSeq:
+			for _, k := range e.Kids {
+				walk(k, free)
+			}
+		case KAlt:
+			if !hit {
+				var c []*Expr
+				for _, k := range e.Kids {
+					if s.canReach(k, target) {
+						c = append(c, k)
+					}
+				}
+				if len(c) > 0 {
+					walk(c[r.Intn(len(c))], free)
+					return
+				}
+			}
+			if free > 0 {
+				walk(e.Kids[r.Intn(len(e.Kids))], free-1)
+				return
+			}
+			best, bc := e.Kids[0], s.exprCost(e.Kids[0])
+			for _, k := range e.Kids[1:] {
+				if c := s.exprCost(k); c < bc {
+					best, bc = k, c
+				}
+			}
+			walk(best, 0)
+		case KQuery, KStar:
+			if (!hit && s.canReach(e.Kids[0], target)) || (free > 0 && r.Intn(2) == 0) {
+				walk(e.Kids[0], free-1)
+			}
+		case KPlus:
+			walk(e.Kids[0], free)
+			if free > 0 && r.Intn(2) == 0 {
+				walk(e.Kids[0], free-1)
+			}
+		case KCapture:
+			walk(e.Kids[0], free)
+		case KLit:
+			for _, c := range e.Text {
+				if e.CI && isLetter(c) && r.Intn(2) == 0 {
+					c ^= 0x20
+				}
+				out = append(out, c)
+			}
+		case KClass:
+			if e.Neg {
+				for tries := 0; tries < 20; tries++ {
+					c := alphabet[r.Intn(len(alphabet))]
+					ok := true
+					for _, it := range e.Items {
+						if MatchItem(it, e.CI, c) {
+							ok = false
+						}
+					}
+					if ok {
+						out = append(out, c)
+						return
+					}
+				}
+				out = append(out, 'q')
+				return
+			}
+			it := e.Items[r.Intn(len(e.Items))]
+			out = append(out, it.Lo+rune(r.Intn(int(it.Hi-it.Lo)+1)))
+		case KDot:
+			out = append(out, alphabet[r.Intn(len(alphabet))])
+		case KRef:
+			rr := s.g.Rule(e.Name)
+			if rr == nil {
+				return
+			}
+			if e.Name == target && !hit {
+				hit = true
+				walk(rr.E, 6) // inside the target: a few random choices
+				return
+			}
+			walk(rr.E, free)
+		}
+	}
+	if rr := s.g.Rule(start); rr != nil {
+		if start == target {
+			hit = true
+			walk(rr.E, 6)
+		} else {
+			walk(rr.E, 0)
+		}
+	}
+	return out
+}
